@@ -11,14 +11,20 @@ Per run:  (1) translator obligations: the five closed formulas of Numerics.py, r
               with extrap_x_l given as list / tuple / numpy array / one list shared between two wrapped functions; every call is
               compared with the (pure) Coq model, identical calls must agree bit for bit, every object handed over must be
               bit-identical afterwards, results must not share memory with the model's arrays (C07_calls_are_independent);
-          (6) the frame condition of extrap_func read off the source (harness/props/c07_frame.py).
+          (6) the frame condition of extrap_func read off the source (harness/props/c07_frame.py);
+          (7) ARGUMENT TYPES (harness/props/c07_types.py, every run): the same numbers handed over as python ints / numpy integer and
+              float32 scalars / integer arrays / mixtures / 0-d arrays (extrap_x_l, .extrap_x, pts, results, fail_mag, extrap_log, and the
+              closed formulas called directly), integer spacings certified sensitive to integer-cut weights; every accepted variant against
+              the canonical float call, the value at zero spacing and the Coq model on the typed node list (C07_typing_of_spacings_irrelevant,
+              C07_integer_spacings_exact, C07_integer_weights_refuted).  When a source obligation is broken the stream runs at thorough size
+              (targeted search) before anything is reported without a failing input.
 """
 import ast, itertools, json, math, os
 from fractions import Fraction
 from harness import lib
 from harness.lib import q, ql, b
 from harness.translate import pyexpr
-from harness.props import c07_frame
+from harness.props import c07_frame, c07_types
 
 NUMERICS = os.path.join(lib.REPO, 'dadi', 'Numerics.py')
 FUNCS = {2: 'linear_extrap', 3: 'quadratic_extrap', 4: 'cubic_extrap', 5: 'quartic_extrap', 6: 'quintic_extrap'}
@@ -321,29 +327,46 @@ def run(ctx):
                 'array/Spectrum/scalar result, explicit or attribute-derived x, positional/keyword pts, fail_mag) drawn from one PRNG; '
                 'plus forced-fallback cases; every case = ONE wrap and a sequence of calls (positional, keyword, positional again, grid list '
                 'in another order, another pts list, other arguments, first call again; extrap_x_l as list/tuple/ndarray/list shared by two '
-                'wrapped functions; pts as list/tuple/ndarray/scalar); distinct = distinct (k, ordering, xs, coefs, flags); non-trivial = k >= 2')
+                'wrapped functions; pts as list/tuple/ndarray/scalar); distinct = distinct (k, ordering, xs, coefs, flags); non-trivial = k >= 2; '
+                'argument-type stream (every run): per k = 1..6 x linear/log x array/Spectrum(explicit list, .extrap_x) x float/integer-valued data one '
+                'base case on integer spacings certified sensitive to integer-cut weights, handed over in every accepted type of extrap_x_l / '
+                '.extrap_x / pts / results / fail_mag / extrap_log (table in c07_types.py), and the closed formulas called directly with every '
+                'xs type x ys type; thorough size (3 base cases per combination, full crossing) in the thorough tier and whenever a source obligation is broken')
     ctx.assumptions += ['float64 evaluation of the formulas is compared with exact rational evaluation at tolerance 1e-11 x conditioning scale (sum |w_i y_i|)',
-                        'Qexp/Qln are rational approximations with relative error < 1e-25 (log mode only)']
+                        'Qexp/Qln are rational approximations with relative error < 1e-25 (log mode only)',
+                        'argument types: a variant with a float32 operand (spacings, .extrap_x or results in float32) is compared at 2e-5 x conditioning scale '
+                        '(numpy forms the weights / the sum in float32); fixed-width integers narrower than 32 bits, unsigned integers, float16 spacings and '
+                        'scalar-valued results with 2..6 grid sizes are rejected or treated differently by the unchanged library and only counted']
     translator_obligations(ctx)
     dispatch_obligation(ctx)
     c07_frame.frame_obligations(ctx, NUMERICS)
+    # a source obligation that no longer checks starts a targeted search: the argument-type stream at thorough size
+    broken = [o['name'] for o in ctx.obligations if not o['ok'] and o['kind'] == 'translator']
+    if broken:
+        ctx.notes.append('source obligation(s) broken (%s): argument-type stream run at thorough size as a targeted search' % '; '.join(broken[:3]))
     cases = gen_cases(ctx)
+    types_replay = None
     if ctx.replay:
         rp = json.load(open(ctx.replay))
+        types_replay = {}
         if rp.get('input') and 'case' in rp['input']:
             c = rp['input']['case']; c['id'] = 0
             cases = [c]
-    res = lib.run_impl('c07_impl.py', cases, timeout=900)
-    byid = {r['id']: r for r in res}
-    batches = {}          # (log, fail_mag, node list) -> items (data set, result); the Lagrange weights are computed once per batch in Coq
+        elif rp.get('input') and ('typed_case' in rp['input'] or 'direct_case' in rp['input']):
+            types_replay = rp['input']; cases = []
     nviol = {}
     pending = []
-    value_failed = set()      # cases that already have a violation with a failing call: the correspondence adds failed obligations only
     def violation(kind, what, data, key=None, cap=3):
         # collected and handed to ctx at the end: wrong values first, then modified arguments, exceptions, aliasing, glue
         nviol[kind] = nviol.get(kind, 0) + 1
         if nviol[kind] <= cap:
             pending.append((kind, what, data, key))
+    tstream = c07_types.Stream(ctx, violation, full=(not ctx.quick) or bool(broken), replay=types_replay)
+    tstream.run_impl()
+    res = lib.run_impl('c07_impl.py', cases, timeout=900)
+    byid = {r['id']: r for r in res}
+    batches = {}          # (log, fail_mag, node list) -> items (data set, result); the Lagrange weights are computed once per batch in Coq
+    value_failed = set()      # cases that already have a violation with a failing call: the correspondence adds failed obligations only
     for c in cases:
         r = byid[c['id']]
         calls = c.get('calls') or legacy_calls(c)
@@ -486,11 +509,14 @@ def run(ctx):
     results = {}
     # coq_cases cuts its list into consecutive chunks of one size: hand it the balanced bins one by one (they run concurrently below)
     from concurrent.futures import ThreadPoolExecutor
-    with ThreadPoolExecutor(max_workers=nsh) as ex:
+    with ThreadPoolExecutor(max_workers=nsh + len(tstream.jobs)) as ex:
         futs = [ex.submit(ctx.coq_cases, 'corr%d' % i, header, bn[1], '(xcheck_batch %s)' % q(TOL), 'tol 1e-11 x conditioning scale',
                           shard=size, record_err=False) for i, bn in enumerate(bins) if bn[1]]
+        tfuts = {tag: ex.submit(ctx.coq_cases, tag, header, exprs, fn, toltext, shard=max(1, -(-len(exprs) // 4)), record_err=False)
+                 for tag, exprs, fn, toltext in tstream.jobs if exprs}
         for f in futs:
             results.update(f.result())
+        tstream.finish({tag: f.result() for tag, f in tfuts.items()})
     reported = set()
     for n, (bkey, bt) in enumerate(blist):
         rr = results.get(n)
